@@ -166,8 +166,8 @@ func checkC01(c *Ctx, r *Report) {
 		ps.specElemDecode("N")
 	}
 	lidx(r, p, []string{"sm2", "sm2/internal", "utils", "sm2/internal/fiat"})
-	r.Floor("index_exprs", 300)
-	r.Floor("protocol_paths", 30)
+	r.Floor("index_exprs", 150)
+	r.Floor("protocol_paths", 12)
 }
 
 func isFoldedConst(s string) bool {
